@@ -110,13 +110,13 @@ theorem parseRDNSS_eq (d : RawRDNSS) (maxI : Dur) :
 
 theorem parseDNSSL_eq (d : RawDNSSL) (maxI : Dur) :
     parseDNSSL d maxI = if docDNSSL maxI d then some (expDNSSL maxI d) else none := by
-  unfold parseDNSSL docDNSSL expDNSSL
+  unfold parseDNSSL docDNSSL expDNSSL hasDupOrEmpty
   simp only [bind, pure, Option.bind, parseDuration_eq, hasDup_eq]
   cases resolve d.lifetime (3 * maxI) with
   | none => simp
   | some l =>
     simp only [Option.getD_some, show lifetimeInRange l = inNonneg l from rfl]
-    cases inNonneg l <;> cases d.names.isEmpty <;> cases nodupNat d.names <;> simp
+    cases inNonneg l <;> cases d.names.isEmpty <;> cases d.names.contains 0 <;> cases nodupNat d.names <;> simp
 
 /-- the source scales the duration itself (regenerated; the repair of F-20) -/
 theorem gen_pref64_scales_duration : Gen.Plugin.pref64ScalesDuration = true := by decide
